@@ -129,13 +129,17 @@ func (m *modeler) applyField(f *field, v reflect.Value, cv *cval, pc polCtx) {
 		}
 		m.applyStruct(f.sub, v, cv, pc.below())
 	case kPtrStruct:
-		if absent {
-			return // not allocated, InitDefaults not called
+		if absent || f.inline && cv.real == 0 {
+			// not allocated, InitDefaults not called (an inlined struct is
+			// mentioned when one of its fields is)
+			return
 		}
 		if v.IsNil() {
 			v.Set(reflect.New(f.sub.typ))
 		}
 		m.applyStruct(f.sub, v.Elem(), cv, pc.below())
+	case kUntouched:
+		// never mentioned
 	case kSlicePrim, kSliceStruct:
 		if absent {
 			return
@@ -176,7 +180,9 @@ func (m *modeler) applyField(f *field, v reflect.Value, cv *cval, pc polCtx) {
 		if absent {
 			return
 		}
-		if v.IsNil() {
+		if v.IsNil() || pc.pol == "replace" {
+			// replace: old dictionaries are replaced, the map holds the new
+			// entries alone (arr-replace concerns lists only)
 			v.Set(reflect.MakeMap(f.typ))
 		}
 		for k, e := range cv.keys {
